@@ -289,6 +289,7 @@ impl<E: FieldElement> OpFlags<E> {
             + degree5_op_flags[7] // JOIN
             + degree4_op_flags[6] // RESPAN
             + degree4_op_flags[7] // HALT
+            + degree4_op_flags[2] // SYSCALL
             + degree4_op_flags[3] // CALL
             + degree4_op_flags[4] * binary_not(frame.is_loop_end()); // END
 
@@ -342,6 +343,7 @@ impl<E: FieldElement> OpFlags<E> {
             + degree7_op_flags[47]
             + degree7_op_flags[46]
             + split_loop_flag
+            + degree4_op_flags[5] // REPEAT
             + shift_left_on_end;
 
         left_shift_flags[2] = left_shift_flags[1] + left_change_1_flag;
